@@ -62,7 +62,7 @@ def gen_cargo():
         # repo without the hook commit: checks that need the hook become inconclusive
         src = re.sub(r"(?m)^\[features\]\s*$", "[features]\nverif = []", src, count=1)
     # extra dev-dependency for the chain generator (real PoW)
-    src = re.sub(r"(?m)^\[dev-dependencies\]\s*$", '[dev-dependencies]\nckb-pow = "0.113.0"\nckb-dao-utils = "0.113.0"', src, count=1)
+    src = re.sub(r"(?m)^\[dev-dependencies\]\s*$", '[dev-dependencies]\nckb-pow = "0.113.0"\nckb-dao-utils = "0.113.0"\nckb-crypto = "0.113.0"', src, count=1)
     src += """
 [[bin]]
 name = "clc-verif"
